@@ -212,6 +212,11 @@ def main(argv=None):
         if out["status"] == "timeout":
             undecided.append((f"native:{n}", out.get("message", "")))
         for fl in out.get("failures", []):
+            if str(fl.get("label", "")).startswith("lib:"):
+                # an assumed library fact does not hold on the installed numpy / scipy: the models are wrong for this
+                # environment - a defect of the checker's trusted base, not of the code under verification
+                errors.append((f"native:{n}::{fl.get('label')}", f"assumed library fact does not hold here ({fl.get('observed', '')}): the proofs that use this model are void"))
+                continue
             kf = next((f for f in open_findings if f.get("obligation") == f"native:{n}::{fl.get('label')}"), None)
             if kf is not None:
                 known_hits.append((kf, {"model": json.dumps(fl.get("input"))[:300]}))
